@@ -105,7 +105,8 @@ fn main() {
             let cfg = ParentCfg {
                 exe: std::env::current_exe().unwrap(),
                 nworkers,
-                cpu_cap_s: std::env::var("VERIF_CPU_CAP").ok().and_then(|s| s.parse().ok()).unwrap_or(20),
+                // per-case CPU cap; C04 enumerates hundreds of recoveries inside one case
+                cpu_cap_s: std::env::var("VERIF_CPU_CAP").ok().and_then(|s| s.parse().ok()).unwrap_or(if prop == "C04" { 120 } else { 20 }),
                 wall_cap_s: 300,
             };
             let out = parent_main(&def, &ctx, &cfg);
